@@ -266,3 +266,7 @@ def run(chk, repo):
     chk.ob('C18.h', f"R-DISCARD: no side-effect-free result is computed and dropped in the label / split / summary code ({nfun} functions)",
            'moPepGen/aa/VariantPeptideLabel.py:1', not hits, f"{hits}: the statement has no effect (e.g. `sorted(x)` instead of `x.sort()`)",
            key='aa.label::discarded-pure')
+    # ------------------------------------------------------------------ shared: option plumbing by name
+    from rules.shared import optname
+    chk.clauses.append('C18.i (shared R-THREAD) an option value bound to a name that is itself a CLI option carries that very option')
+    optname(chk, repo, 'C18.i', ['cli.split_fasta', 'cli.merge_fasta', 'cli.encode_fasta', 'cli.summarize_fasta'], floor=0)
